@@ -16,7 +16,7 @@ SPEECH_CONTAINERS = {'ADDRESS': 'address', 'ADJOURNMENT': 'adjournment', 'ADMINI
                      'PERSONALSTATEMENTS': 'personalStatements', 'PETITIONS': 'petitions', 'POINTOFORDER': 'pointOfOrder', 'PRAYERS': 'prayers',
                      'PROCEDURALMOTIONS': 'proceduralMotions', 'QUESTIONS': 'questions', 'RESOLUTIONS': 'resolutions', 'ROLLCALL': 'rollCall',
                      'WRITTENSTATEMENTS': 'writtenStatements'}
-SPEECH_GROUPS = {'SPEECH': 'speech', 'QUESTION': 'question', 'ANSWER': 'answer'}
+SPEECH_GROUPS = {'SPEECH': 'speech', 'QUESTION': 'question', 'ANSWER': 'answer', 'SPEECHGROUP': 'speechGroup'}
 ATTACH = {'ATTACHMENT': 'attachment', 'APPENDIX': 'appendix', 'SCHEDULE': 'schedule', 'ANNEXURE': 'annexure'}
 JUDGMENT_PARTS = ['INTRODUCTION', 'BACKGROUND', 'ARGUMENTS', 'REMEDIES', 'MOTIVATION', 'DECISION']
 STD_INLINE = {'abbr': ('abbr', {'title': ''}), 'def': ('def', {}), 'em': ('inline', {'name': 'em'}), 'inline': ('inline', {'name': 'inline'}),
